@@ -161,7 +161,7 @@ fn cli_family(ctx: &Ctx, rep: &mut Report, idx: &mut u64) {
                     rep.corner(&format!("cli_{vname}"));
                     let work = format!("{dir}/w.skf");
                     std::fs::copy(&orig, &work).unwrap();
-                    let _ = std::fs::remove_file(format!("{dir}/o.skf"));
+                    scratch::stale(&format!("{dir}/o.skf"));
                     let mut args: Vec<String> = vec!["delete".into(), "-s".into(), "w.skf".into()];
                     if !inplace {
                         args.push("-o".into());
